@@ -336,8 +336,19 @@ fn make_cell(family: &str, variant: u64, aux: u64) -> Cell {
             let (name, map) = typed_cell(family, variant, aux);
             // ZiporaHashMap over the rarely used key/value types: standard storage, default configuration (16 slots), the
             // hash function tabulated per case; the other families stay oracle-only
-            if family == "zip_t" { Cell { name, status: "M+S", model: Some(ModelDesc::StdTab { cap: 16 }), stub: false, map } }
-            else { Cell { name, status: "S-only", model: None, stub: false, map } }
+            // the same generic code over rarely used key / value types, tied to the family's model on the canonical key / value numbers:
+            // ZiporaHashMap (default configuration, 16 slots) and GoldHashMap (high_churn, 5 buckets, cache on even aux) with the
+            // hash function tabulated per case from the real hasher on the real keys; GoldHashIdx::new(), SmallMap::new(),
+            // EasyHashMap::with_default(7) by their answers (fixed internal hashers; the theorems say the answers do not depend on them)
+            let model = match family {
+                "zip_t" => ModelDesc::StdTab { cap: 16 },
+                "gold_t" => { let c = GoldHashMapConfig::high_churn();
+                              ModelDesc::Gold { cap0: 5, cache: aux % 2 == 0, gc: c.enable_auto_gc, reuse: c.enable_freelist_reuse, lf: c.load_factor, collide: aux } }
+                "idx_t" => ModelDesc::Idx { cap: 16 },
+                "small_t" => ModelDesc::Small,
+                _ => ModelDesc::Easy { cap: 16, auto: true, num: 3, den: 4 },
+            };
+            Cell { name, status: "M+S", model: Some(model), stub: false, map }
         }
         _ => {
             use zipora::containers::specialized::HashStrMap as H;
@@ -534,15 +545,17 @@ fn history(cx: &mut Ctx, family: &str, variant: u64, aux: u64, ops: &[(u64, u64,
                 ModelDesc::Str => (8, vec![], vec![]),
                 ModelDesc::Easy { cap, auto, num, den } => (4, vec![cap, auto as u64, num, den], vec![]),
                 ModelDesc::Gold { cap0, cache, gc, reuse, lf, collide } => {
-                    let mut ks: Vec<u64> = ops[..n].iter().map(|o| o.1).collect(); ks.sort(); ks.dedup();
-                    let hs: Vec<(u64, u64)> = ks.iter().map(|&k| (k, default_hash(&ckey(collide, k)))).collect();
+                    // DefaultHasher on the real key of every key number the history touches (Gold::key_hash)
+                    let _ = collide;
+                    khash.sort(); khash.dedup();
+                    let hs: Vec<(u64, u64)> = khash.clone();
                     let ml: Vec<(u64, u64)> = GOLD_PRIMES.iter().map(|&p| (p, (p as f32 * lf) as usize as u64)).collect();
                     let (has, it, b, d) = match &fin { Some((it, sc)) => (1, it.clone(), sc[0], sc[1]), None => (0, vec![], 0, 0) };
                     (3, vec![cap0, cache as u64, gc as u64, reuse as u64, has, b, d], vec![kvs(&it), kvs(&hs), kvs(&ml)])
                 }
             };
             // the new kinds run on the canonical numbers (u8 keys wrap at 256, String values are numbered ...)
-            let ops_src: &[(u64, u64, u64)] = if kind >= 6 { &cops[..n] } else { &ops[..n] };
+            let ops_src: &[(u64, u64, u64)] = &cops[..n];
             let ops_coq: Vec<String> = ops_src.iter().enumerate().filter(|(i, _)| offered[*i]).map(|(_, (c, k, v))| format!("({}, {}, {})", c, k, v)).collect();
             let obs_coq: Vec<String> = obs[..n].iter().enumerate().filter(|(i, _)| offered[*i]).map(|(_, o)| o.clone()).collect();
             if !ops_coq.is_empty() {
@@ -806,6 +819,17 @@ pub fn run(args: &Args) {
             }
         }
     }
+    // HashStrMap: the counters behind statistics() (op 8: entries / total_strings / unique_strings) after re-insertion of a
+    // present key, removal, re-insertion of a removed key, clear / clear_all, on every constructor
+    for n in [0u64, 1, 5, 20] {
+        for variant in 0..3u64 {
+            let mut ops: Vec<(u64, u64, u64)> = (0..n).map(|i| (0, i * 5 % 13, 10 + i)).collect();
+            for w in 0..3 { ops.push((8, 0, w)); }
+            ops.extend([(1, 5, 0), (1, 6, 0), (0, 5, 77), (3, 10, 78), (0, 10, 79), (8, 0, 0), (8, 0, 1), (8, 0, 2), (5, 0, 0), (6, 0, 0)]);
+            ops.extend([(7, variant, 0), (8, 0, 1), (8, 0, 2), (0, 3, 1), (0, 3, 2), (8, 0, 1), (8, 0, 2), (8, 0, 0)]);
+            history(&mut cx, "str", variant, 0, &ops, true, None);
+        }
+    }
     cx.sum.dist_max("enumerated_histories", count);
 
     // ---- breadth, deterministic families --------------------------------------------------------------------------
@@ -889,7 +913,7 @@ pub fn run(args: &Args) {
         let ty = i % TYPES;
         for fam in ["zip_t", "gold_t", "idx_t", "small_t", "easy_t"] {
             if ty == 6 && ops.len() > 150 { continue; }
-            history(&mut cx, fam, ty, rng.below(N_HASHERS), &ops, room && fam == "zip_t" && i % 2 == 0, None);
+            history(&mut cx, fam, ty, rng.below(N_HASHERS), &ops, room && ops.len() <= 120 && (i + fam.len() as u64) % 2 == 0, None);
         }
     }
     // large fills on every cell (one Coq evaluation of the smallest)
